@@ -1204,11 +1204,17 @@ Proof.
   repeat split; assumption.
 Qed.
 
+Lemma firstn_incl' {A} n (l : list A) : incl (firstn n l) l.
+Proof. intros x Hx. rewrite <- (firstn_skipn n l). apply in_or_app. left. exact Hx. Qed.
+
+Lemma skipn_incl' {A} n (l : list A) : incl (skipn n l) l.
+Proof. intros x Hx. rewrite <- (firstn_skipn n l). apply in_or_app. right. exact Hx. Qed.
+
 Lemma own_of_incl_laxes n t : incl (own_of n t) (laxes n t).
 Proof.
   unfold own_of. intros x Hx. apply in_app_or in Hx. destruct Hx as [Hx|Hx].
-  - apply (firstn_incl _ _ x Hx).
-  - apply (skipn_incl _ _ x Hx).
+  - apply (firstn_incl' _ _ x Hx).
+  - apply (skipn_incl' _ _ x Hx).
 Qed.
 
 Lemma wf_laxes_incl s k nk : wf s -> aget k (nodes s) = Some nk -> incl (lax s k nk) (axes (tens s k)).
@@ -1298,7 +1304,7 @@ Proof.
   assert (Hownc' : own_of cn' (tens s' c) = w :: R).
   { unfold own_of. fold (lax s' c cn'). rewrite Hlc'.
     replace (nparents cn') with 1 by reflexivity. replace (nvirt cn') with (S m) by (rewrite <- Hm; reflexivity). reflexivity. }
-  assert (HRL : incl R L') by (apply skipn_incl).
+  assert (HRL : incl R L') by (apply skipn_incl').
   assert (HndR : NoDup (cw :: R)) by (rewrite <- Hownc; apply (wf_own1 s H c cn Ec)).
   assert (Hown' : forall k nk nk', k <> c -> aget k (nodes s) = Some nk -> aget k (nodes s') = Some nk' ->
             own_of nk' (tens s' k) = own_of nk (tens s k)).
